@@ -32,8 +32,8 @@ func init() {
 		Word32: true,
 		Level:  "model_checking",
 		Rule: "E2 explicit-state breadth-first search over real TailBitmap objects. Starts (all built with real calls): empty at offset 0/64/640/2^33; three words filled except H holes in forward, backward and interleaved fill order (offset 0 and 64); two starts that cross the real 1024-word reclaim threshold (1023 full words then holes; words 1..1025 full with the holes in word 0, so one Set compacts >1024 words), and five more in which a bit was set FAR AHEAD first (at word 2046, 2047, 2048, 2049, 4000), so that the tail surviving the compaction across the threshold is 1023, 1024, 1025, 1026 and ~3000 words long. " +
-			"Alphabet per state: Set(every hole), Set below Offset (0, Offset-1, Offset-64), Set beyond the end (end+1, end+129, while the bitmap has grown < 130 bits), Set of an already-set bit, Compact. Successors are produced by cloning the object - into a buffer of exactly the capacity Words has in the real evolution, so that append and re-slicing continue as on the original - and calling the real method; the state key is every field the implementation can read (Offset, Words, all unexported fields through reflect) and the capacity of Words. " +
-			"After EVERY transition (before deduplication): Get/Get1 on the whole window [Offset-130, end) ∪ {0, o-1} against the model (when more than 1024 bits are stored: every bit within 66 of Offset, the end, every hole, every position ever set and the operation's index, plus the first and last bit of every stored word), Offset ≡ 0 mod 64 and monotone, no 0 bit skipped, first stored word ≠ all-ones after Set, highest index ever set < end, Compact changes no Get. Every discovered state is additionally re-reached by replaying its shortest path on a freshly built object (differential: cloned chain vs fresh replay), and every eighth state (and every state of depth ≤3) once more with a second, unrelated TailBitmap operated between the steps (objects must not share state). Non-trivial transitions: those that change the state.",
+			"Alphabet per state: Set(every hole), Set below Offset (0, -1, Offset-1, Offset-5, Offset-63, Offset-64, Offset-65: negative indexes when the offset is 0), Set beyond the end (end+1, end+129, while the bitmap has grown < 130 bits), Set of an already-set bit, Compact. Successors are produced by cloning the object - into a buffer of exactly the capacity Words has in the real evolution, so that append and re-slicing continue as on the original - and calling the real method; the state key is every field the implementation can read (Offset, Words, all unexported fields through reflect) and the capacity of Words. " +
+			"After EVERY transition (before deduplication): Get/Get1 on the whole window [Offset-130, end) ∪ {0, o-1, -1, -64, -65} (negative positions included: they lie below the offset) against the model (when more than 1024 bits are stored: every bit within 66 of Offset, the end, every hole, every position ever set and the operation's index, plus the first and last bit of every stored word), Offset ≡ 0 mod 64 and monotone, no 0 bit skipped, first stored word ≠ all-ones after Set, highest index ever set < end, Compact changes no Get. Every discovered state is additionally re-reached by replaying its shortest path on a freshly built object (differential: cloned chain vs fresh replay), and every eighth state (and every state of depth ≤3) once more with a second, unrelated TailBitmap operated between the steps (objects must not share state). Non-trivial transitions: those that change the state.",
 		Assumptions: []string{
 			"histories are those reachable with the per-start alphabet; the search is complete for that alphabet (all reachable states, every operation from every state)",
 			"the clone copies every field by struct copy plus a deep copy of Words; hidden state outside the struct would be caught only by the fresh-replay pass",
@@ -349,12 +349,9 @@ func c15Invariant(prev, cur *bitmap.TailBitmap, m *c15Model, op c15Op, holes []i
 	if op.Op == "set" && len(cur.Words) > 0 && cur.Words[0] == ^uint64(0) {
 		return "first stored word is all-ones after Set"
 	}
-	lo := cur.Offset - 130
-	if lo < 0 {
-		lo = 0
-	}
+	lo := cur.Offset - 130 // negative for small offsets: positions below 0 are "below the offset" too
 	probe := func(j int64) string {
-		if j < 0 || j >= end {
+		if j >= end {
 			return ""
 		}
 		g, g1, p := c15Get(cur, j)
@@ -406,7 +403,7 @@ func c15Invariant(prev, cur *bitmap.TailBitmap, m *c15Model, op c15Op, holes []i
 			}
 		}
 	}
-	for _, j := range []int64{0, m.o - 1} {
+	for _, j := range []int64{0, m.o - 1, -1, -64, -65} {
 		if s := probe(j); s != "" {
 			return s
 		}
@@ -442,9 +439,11 @@ func c15Enabled(st c15Start, tb *bitmap.TailBitmap, startEnd int64) []c15Op {
 		ops = append(ops, c15Op{"set", h})
 	}
 	ops = append(ops, c15Op{"set", st.holes[0] + 2}) // set in prefilled starts, one more hole in empty ones
+	// below the offset - for offset 0 that means NEGATIVE indexes ("j < o" has no lower end): just below,
+	// one word below, at both ends of the word below, and the absolute positions 0 and -1
 	seen := map[int64]bool{}
-	for _, j := range []int64{0, tb.Offset - 1, tb.Offset - 64} {
-		if j >= 0 && !seen[j] {
+	for _, j := range []int64{0, -1, tb.Offset - 1, tb.Offset - 5, tb.Offset - 63, tb.Offset - 64, tb.Offset - 65} {
+		if (j < tb.Offset || j == 0) && !seen[j] {
 			seen[j] = true
 			ops = append(ops, c15Op{"set", j})
 		}
